@@ -36,7 +36,13 @@ CL_BOTH = "either both runs of a pair succeed or both fail"
 
 
 def _pair(world_a, cfg_a, world_b, cfg_b):
-    """run both; -> (blob_a, blob_b, err_a, err_b)"""
+    """run both; -> (blob_a, blob_b, err_a, err_b).  A per-level bootstrap factor lookup is written for
+    the taxonomy each run is GIVEN: the run on the reduced reference names only the levels that
+    reference has (it never had the others), the drop_level / flatten run names every stored level"""
+    lk = cfg_b.get('bootstrap_factor_lookup')
+    if isinstance(lk, dict):
+        keep = set(world_b.hierarchy[:-1]) | {'None'}
+        cfg_b = dict(cfg_b, bootstrap_factor_lookup={k: v for k, v in lk.items() if k in keep})
     res = []
     for w, c in ((world_a, cfg_a), (world_b, cfg_b)):
         try:
@@ -215,16 +221,25 @@ def run(tier='quick', seed=0, jobs=1):
         results = fx.parallel_map(_task, tasks_for(tier, seed), jobs)
         # 'rejected' pairs (both runs raise: exception-freedom is C01's clause) count as generated, not accepted
         cleaned = []
+        n_rej = n_acc = n_lk_acc = 0
         for status, val in results:
             if status == 'ok':
                 keep = []
                 for rec in val:
                     if rec.get('status') == 'rejected':
                         row['cases'] += 1
+                        n_rej += 1
                     else:
                         keep.append(rec)
+                        n_acc += 1
+                        if isinstance(((rec.get('args') or {}).get('config') or {}).get('bootstrap_factor_lookup'), dict):
+                            n_lk_acc += 1
                 val = keep
             cleaned.append((status, val))
+        if n_acc and (n_rej > n_acc or n_lk_acc == 0):
+            # vacuity guard: pairs in which both runs raise are not evaluated; they must stay the exception
+            fx.add_error(row, f"vacuity guard: {n_rej} pairs rejected (both runs raised) vs {n_acc} evaluated; "
+                              f"{n_lk_acc} evaluated pairs used a per-level bootstrap factor lookup")
         c06.collect(rows, cleaned, row)
     except BaseException:   # noqa
         fx.add_error(row, traceback.format_exc()[-2000:])
